@@ -163,9 +163,9 @@ RECV_SEND_NOTE = ("Trusted: Lean kernel; the Lean models of SendTransaction / Re
 
 PROPS["C07"] = dict(
     title="Sender transmits exactly the source file: right bytes, offsets, sizes, checksum",
-    module="Cfdp.Props.C07",
+    module="Cfdp.Props.C07e",
     namespace="Cfdp.Send",
-    theorems=["C07_data", "C07_nak_queue"],
+    theorems=["C07_data", "C07_nak_queue", "Cfdp.Loop.C07_eof"],
     engines=["send"],
     design="§6 C07",
     technique="Lean 4 invariant proof over all event histories of the sender model + differential correspondence with SendTransaction",
@@ -183,7 +183,7 @@ PROPS["C07"] = dict(
           "Non-trivial = a PDU was emitted or an indication raised."),
     assumptions=["the source file does not change between Put and EOF (metadata.file_size = length of the file read)", "0 < file_size_segment <= 65535"],
     unproved=["first-pass tiling (offsets i*seg in order) and 'a NAK is answered with exactly the requested in-file part': checked by the send engine oracles (tiling, nak_answer) on the implementation",
-              "EOF states the true size and checksum; every PDU carries the transaction's ids/mode/direction and dataLen = payload length: send engine oracles (meta_eof, header) + byte-exact correspondence"],
+              "every PDU carries the transaction's ids/mode/direction and dataLen = payload length: send engine oracle (header) + byte-exact correspondence"],
 )
 
 PROPS["C19"] = dict(
@@ -280,8 +280,7 @@ PROPS["C18"] = dict(
           "prompts, duplicates, wrong checksums, short EOFs, rejected destinations; send engine: unacknowledged histories with and without closure, Finished PDUs with every outcome, "
           "stray NAK/ACK/keep-alive PDUs. Non-trivial = a PDU was emitted or an indication raised."),
     assumptions=[],
-    unproved=["the sender's transmission sequence metadata - data once - EOF as a whole-history statement (oracle send_shape; per-PDU truthfulness is C07)",
-              "a cancelled unacknowledged receiver with closure prepares a Finished PDU but terminates before sending it (observed in the model and the code; see DESIGN.md, C10)"],
+    unproved=["the sender's transmission sequence metadata - data once - EOF as a whole-history statement (oracle send_shape; per-PDU truthfulness is C07)"],
 )
 
 PROPS["C08"] = dict(
@@ -408,9 +407,9 @@ PROPS["C13"] = dict(
 
 PROPS["C01"] = dict(
     title="A file reported as delivered is byte-identical to the source file",
-    module="Cfdp.Props.C01",
+    module="Cfdp.Props.Net",
     namespace="Cfdp.Loop",
-    theorems=["C01_delivered_is_source", "good_recvStep", "Cfdp.Recv.fin_core", "Cfdp.Recv.dataOk_complete", "Cfdp.Recv.writeAt_get"],
+    theorems=["C01_delivered_is_source", "Cfdp.Net.C01_two_party", "good_recvStep", "Cfdp.Recv.fin_core", "Cfdp.Recv.dataOk_complete", "Cfdp.Recv.writeAt_get"],
     engines=["recv", "send", "seg", "cksum"],
     design="§6 C01",
     technique="Lean 4 invariant proof over all event histories of the receiver model (staging-file content, segment list, filestore), using C09, C04, C13, C18 + differential correspondence",
@@ -423,7 +422,7 @@ PROPS["C01"] = dict(
                 "semantics of seek+write incl. zero-filled holes; merge_cov from C09), completeness = every byte of [0, size) covered makes the staging file equal to src "
                 "(dataOk_complete), Retained is only recorded after the whole staging file was written under the destination name, and once the transaction has left "
                 "ReceiveData file, status and delivery code never change again (C04). A truncated, holed or stale file cannot be reported Complete: C18_complete_means_complete. "
-                "The sender reports Complete only on the receiver's word (C04_sender). Tie to the code: recv engine (staging-file handle, segment list and the full directory "
+                "The sender reports Complete only on the receiver's word (C04_sender). Two parties (C01_two_party in Props/Net.lean, model Model/Net.lean): the sender task loop, the receiver task loop and a link that may lose, duplicate, reorder and delay PDUs in both directions without bound (it may deliver any PDU ever transmitted, any number of times, at any time), under every interleaving of loop iterations, timer expiries and user requests at either side: if the receiver's record says Retained / Complete, the destination holds exactly the sender's source file (the sender's PDUs are truthful by C07_data / C07_eof, which is what C01_delivered_is_source asks of the link). Tie to the code: recv engine (staging-file handle, segment list and the full directory "
                 "listing with content digests compared after every call; oracle delivered_equals_source reads the real destination file), send engine, seg, cksum engines."),
     level_note=RECV_SEND_NOTE + " Identity does not rest on the checksum when the sender is truthful; corrupted PDUs are the subject of C15 (CRC) and C14 (checksum); "
                "'cross-wired' files between transactions are C11.",
@@ -431,7 +430,7 @@ PROPS["C01"] = dict(
           "delay, CRC, Modular/Null checksum; loss, duplication, reordering, re-segmentation, wrong checksums, short EOFs) + send, seg, cksum engines. "
           "Oracles delivered_equals_source, complete_without_data. Non-trivial = a PDU was emitted or an indication raised."),
     assumptions=["the PDUs delivered belong to a transfer of one fixed file src (hypothesis TruthfulEv); what a link may do to them is unrestricted"],
-    unproved=["two-party statement (sender model composed with receiver model over a lossy link): the sender's PDUs are truthful by C07, the composition itself is exercised by the daemon engine"],
+    unproved=["the link of the two-party model does not alter PDUs (corruption is C15) and carries one transaction (routing is C11); the composed model is run against two real daemons by the daemon engine, not compared step by step"],
 )
 
 PROPS["C03"] = dict(
